@@ -12,6 +12,11 @@ Decided:
               stored payload must be derived from the payload bytes themselves (plan_document_chunks, which requires
               valid UTF-8); a plan derived from *extracted* text (lossy) makes the canonical payload of a binary
               document differ from what was stored.
+  GUARD-C07f  the plan cut from the *extracted* text (plan_text_chunks) is a fallback: in put_internal it may be computed
+              only on the edge where the plan cut from the payload itself is None. If it can replace an existing raw
+              plan, a UTF-8 document longer than the extractor's character cap is stored as the chunks of its prefix
+              (the parent keeps no payload) and the tail is lost. (Its use as a fallback for payloads that are not
+              UTF-8 is the known finding of FLOW-C07d.)
   PAIR-C07e   cursor discipline: a `std::fs::File` cursor is shared by every clone of the handle (try_clone), so a read
               through std::io::Read on a File is exact only if the same function positioned that handle first. Every
               Read::{read, read_exact, read_to_end, ...} whose receiver is a File is dominated by a successful
@@ -200,6 +205,24 @@ def run(ctx):
                     if c in sl.calls:
                         manifest_users.append((c, s.get('l')))
         ctx.evaluations += len(lossy) + len(lossless)
+        ctx.rule('GUARD-C07f', 'plan_text_chunks(extracted text) only on the edge where the payload\'s own chunk plan is None')
+        for c in lossy:
+            ok_edge = False
+            for bs in lib.bool_switches(put):
+                sl = lib.slice_back(put, [{'c': {'l': bs['local'], 'p': []}}], through_calls=True, at=(bs['bb'], None))
+                if any(x.name == 'is_none' for x in sl.calls) and any(x in sl.calls for x in lossless) and lib.edge_dominates(put, bs['bb'], bs['t_true'], c.bb):
+                    ok_edge = True
+                if any(x.name == 'is_some' for x in sl.calls) and any(x in sl.calls for x in lossless) and lib.edge_dominates(put, bs['bb'], bs['t_false'], c.bb):
+                    ok_edge = True
+            for vs in lib.variant_switches(put):
+                if vs.get('enum') == 'Option' and 'None' in vs['arms'] and lib.edge_dominates(put, vs['bb'], vs['arms']['None'], c.bb) and \
+                        any(x in lib.slice_back(put, [{'c': {'l': vs['place'].l, 'p': []}}], through_calls=True, at=(vs['bb'], None)).calls for x in lossless):
+                    ok_edge = True
+            if ok_edge:
+                ctx.ok('GUARD-C07f', put, 'the extracted-text plan is computed only where the payload\'s own plan is None', line=c.line)
+            else:
+                ctx.bad('GUARD-C07f', put, 'plan_text_chunks(extracted text) is not confined to the edge where the payload\'s own chunk plan is None: it can replace the plan of a valid UTF-8 '
+                        'document, whose content beyond the extractor\'s character cap is then stored nowhere', line=c.line, sink='chunk_plan', detail='extracted-plan-overrides-raw-plan')
         if not lossless:
             ctx.lost('FLOW-C07d', 'put_internal no longer plans chunks from the raw payload (plan_document_chunks)')
         if manifest_users:
